@@ -2,6 +2,7 @@
 import vlib
 import rescommon as rc
 import unicommon as uc
+import reccommon as rec
 from vlib import Verdict, workdir, rng
 
 PID = "C07"
@@ -15,17 +16,28 @@ def run(tier):
               "authoritative-server model (TLC, AuthReply); sequences of 2..5 questions share the cache; the real "
               "resolve() runs against them through hook H3 and TLC validates each result against Truth(universe, q) "
               "(defined on the global name space, independently of the resolver's algorithm) and that successive "
-              "servers asked serve strictly closer zones. An evaluation is one resolution.")
+              "servers asked serve strictly closer zones. Histories with time: the address records of the name servers "
+              "carry a short TTL, their NS records a long one, and the next question comes 61..3000 s later (this is "
+              "the history of finding F15, fixed). The resolver as a state machine (Recursive.tla) is explored "
+              "exhaustively by TLC inside generated universes (MCRecursive: every candidate / address order, every "
+              "sequence of up to MaxAsk questions, MaxFaults failed transport attempts, MaxForget record sets lost from "
+              "the cache at any moment; Inv_C07_Truth, Inv_C10_Chain, Act_C07_Closer), and every recorded recursive "
+              "scenario is validated as a behaviour of that state machine (RecursiveTrace; the unlogged internal steps "
+              "and orders are inferred by TLC). An evaluation is one resolution.")
     v.assumptions = ["universes are consistent: every NS host resolvable without a cycle, glue equal to the authoritative "
                      "addresses, all servers of a zone identical, every host dual-stack (so every zone is reachable)",
-                     "no virtual time passes between the questions of a sequence"]
+                     "record sets expire as a whole (one TTL per set, RFC 2181 5.2); name-server address records may "
+                     "expire before the NS records that name them"]
     wd = workdir("c07")
     vlib.build_harness()
     r_ = rng(7)
     n = 60 if tier == "quick" else 1500
     scs = uc.universe_scenarios(r_, wd, n, [1, 2, 2, 3, 3, 4, 5], "dual", ["only-v4", "prefer-v4", "prefer-v6", "only-v6"],
                                 True, nq=(2, 5))
+    scs += uc.glue_expiry_scenarios(r_, wd, 16 if tier == "quick" else 300)
     lines, rejects = rc.run_scenarios(v, PID, wd, "tv", scs, chunk=40)
+    rec.model_check(v, PID, wd, r_, tier)
+    rec.conformance(v, wd, lines)
     kinds = {}
     nex = 0
     for ln in lines:
